@@ -5,6 +5,7 @@ From Coq Require Import ZArith List Bool String Reals.
 From VQ Require Import Num Model.Vec Model.Core Model.Residual Proofs.CoreNearest Proofs.ResidualProofs Glue.CoreGlue Glue.Pin_p_residual.
 From VQ Require Import Glue.Pin_fp_C06.
 From VQ Require Import Model.Strides Proofs.StridesProofs Glue.Pin_inv_view_writes.
+From VQ Require Import Model.GroupCat Proofs.GroupCatProofs Glue.GroupCatGlue.
 Import ListNotations.
 Open Scope R_scope.
 
@@ -160,3 +161,35 @@ Theorem C06_tie_no_new_write_through_view_handles :
   inv_view_writes.inv_view_writes = pinned_inv_view_writes.
 Proof. exact (@Pin_inv_view_writes.pin_inv_view_writes). Qed.
 Print Assumptions C06_tie_no_new_write_through_view_handles.
+
+(* implicit *)
+Theorem C06_grouped_chunk_is_the_group_stack_channel_first :
+  forall (A : Type) (dg : nat) (Ys : nat -> nat -> nat -> nat -> A) (g b c p : nat),
+       (c < dg)%nat -> @chunk_ax1 A dg (@cat_ax1 A dg Ys) g b c p = Ys g b c p.
+Proof. exact (@GroupCatProofs.chunk_of_cat_ax1). Qed.
+Print Assumptions C06_grouped_chunk_is_the_group_stack_channel_first.
+
+(* implicit *)
+Theorem C06_grouped_chunk_is_the_group_stack_channel_last :
+  forall (A : Type) (dg : nat) (Ys : nat -> nat -> nat -> nat -> A) (g b p c : nat),
+       (c < dg)%nat -> @chunk_last A dg (@cat_last A dg Ys) g b p c = Ys g b p c.
+Proof. exact (@GroupCatProofs.chunk_of_cat_last). Qed.
+Print Assumptions C06_grouped_chunk_is_the_group_stack_channel_last.
+
+Theorem C06_grouped_forward_on_last_axis_refuted :
+  exists (dg : nat) (Ys : nat -> nat -> nat -> nat -> nat) (g b c p : nat),
+         (c < dg)%nat /\ chunk_ax1 dg (cat_last dg Ys) g b c p <> Ys g b c p.
+Proof. exact (@GroupCatProofs.forward_cat_last_refuted). Qed.
+Print Assumptions C06_grouped_forward_on_last_axis_refuted.
+
+Theorem C06_tie_grouped_forward_axes :
+  forall image : bool,
+       map (fun tag : string => forward_axis tag image p_residual.p_residual) ["grvq"; "grfsq"; "grlfq"] =
+       map (fun _ : string => Some (if image then Ax1 else AxLast)) ["grvq"; "grfsq"; "grlfq"].
+Proof. exact (@GroupCatGlue.source_forward_axes). Qed.
+Print Assumptions C06_tie_grouped_forward_axes.
+
+Theorem C06_tie_grouped_split_dims :
+  forallb (fun tag : string => split_dim_ok tag p_residual.p_residual) ["grvq"; "grfsq"; "grlfq"] = true.
+Proof. exact (@GroupCatGlue.source_split_dims). Qed.
+Print Assumptions C06_tie_grouped_split_dims.
